@@ -34,6 +34,11 @@ func (n *Node) LogDump() (string, error) {
 	if err != nil {
 		return "", err
 	}
+	return RenderLogs(evs, trs), nil
+}
+
+// RenderLogs is the canonical text of two tables (every column the API returns), rows in key order.
+func RenderLogs(evs []*logdb.Event, trs []*logdb.Transfer) string {
 	var sb strings.Builder
 	for _, e := range evs {
 		fmt.Fprintf(&sb, "E %d.%d.%d %x %d %x %x %d %x", e.BlockNumber, e.TxIndex, e.LogIndex, e.BlockID[:], e.BlockTime, e.TxID[:], e.TxOrigin[:], e.ClauseIndex, e.Address[:])
@@ -50,7 +55,7 @@ func (n *Node) LogDump() (string, error) {
 		fmt.Fprintf(&sb, "T %d.%d.%d %x %d %x %x %d %x %x %s\n", t.BlockNumber, t.TxIndex, t.LogIndex, t.BlockID[:], t.BlockTime, t.TxID[:], t.TxOrigin[:], t.ClauseIndex,
 			t.Sender[:], t.Recipient[:], t.Amount.String())
 	}
-	return sb.String(), nil
+	return sb.String()
 }
 
 // LogSnapshot copies the files of the log database (main file and write-ahead log; SQLite rebuilds the wal-index).
